@@ -1,49 +1,82 @@
-use vh::act::{apply, Action};
-use vh::world::*;
+use std::time::Instant;
+use vh::checks::{self, Tier};
+use vh::evidence;
+
+fn usage() -> ! {
+    eprintln!("{}", format!("usage: check <ID> [--tier quick|thorough] [--replay <file>]"));
+    std::process::exit(2)
+}
 
 fn main() {
-    let banks = vec![
-        BankSpec { label: "B6".into(), mint: MintSpec::spl("usdc", 6), oracle: OracleSpec::pyth_usd(100_000_000), config: BankCfg::default() },
-        BankSpec { label: "B9".into(), mint: MintSpec::spl("sol", 9), oracle: OracleSpec::pyth_usd_conf(10_000_000_000, 50_000_000), config: BankCfg::default() },
-        BankSpec { label: "BF".into(), mint: MintSpec::t22("fee", 6, Some((100, 5000))), oracle: OracleSpec::pyth_usd(100_000_000), config: BankCfg::default() },
-        BankSpec { label: "BT".into(), mint: MintSpec::t22("t22", 8, None), oracle: OracleSpec::Swb { value: 2_000_000_000_000_000_000, std_dev: 0 }, config: BankCfg::default() },
-    ];
-    let t0 = std::time::Instant::now();
-    let (w, mut s) = build_world(&WorldSpec::new("smoke", banks, &["u0", "u1"]));
-    println!("world built in {:?}, {} accounts", t0.elapsed(), s.accts.len());
-    let acts = vec![
-        Action::Deposit { u: 0, b: 0, amt: 1_000_000_000, up_to_limit: None },
-        Action::Deposit { u: 1, b: 1, amt: 10_000_000_000, up_to_limit: None },
-        Action::Deposit { u: 1, b: 2, amt: 5_000_000, up_to_limit: None },
-        Action::Deposit { u: 1, b: 3, amt: 500_000_000, up_to_limit: None },
-        Action::Borrow { u: 0, b: 1, amt: 1_000_000_000 },
-        Action::Borrow { u: 0, b: 1, amt: u64::MAX / 4 },
-        Action::Borrow { u: 0, b: 2, amt: 1_000_000 },
-        Action::Borrow { u: 0, b: 3, amt: 1_000_000 },
-        Action::Advance { dt: 3600 },
-        Action::Accrue { b: 1 },
-        Action::CollectFees { b: 1 },
-        Action::Repay { u: 0, b: 1, amt: 0, all: true },
-        Action::Repay { u: 0, b: 2, amt: 0, all: true },
-        Action::Repay { u: 0, b: 3, amt: 0, all: true },
-        Action::Withdraw { u: 0, b: 0, amt: 0, all: true },
-        Action::Withdraw { u: 1, b: 2, amt: 100, all: false },
-    ];
-    for a in &acts {
-        let t = std::time::Instant::now();
-        let r = apply(&w, &mut s, a);
-        println!("{:?} -> {} ({:?}) panic={:?}", a, vh::svm::err_name(r.code), t.elapsed(), if r.code == vh::svm::ERR_PANIC { vh::svm::last_panic() } else { None });
+    let args: Vec<String> = std::env::args().collect();
+    if args.len() < 2 {
+        usage();
     }
-    for b in &w.banks {
-        let bk = bank(&s, &b.key);
-        println!("{}: vault={} assets_sh={:?} liab_sh={:?} asv={:?} lsv={:?} ins={:?} grp={:?} prog={:?}", b.label, token_amount(&s, &b.lv), bk.total_asset_shares, bk.total_liability_shares, bk.asset_share_value, bk.liability_share_value, bk.collected_insurance_fees_outstanding, bk.collected_group_fees_outstanding, bk.collected_program_fees_outstanding);
+    let id = args[1].clone();
+    let mut tier = match std::env::var("VERIF_TIER").as_deref() {
+        Ok("thorough") => Tier::Thorough,
+        _ => Tier::Quick,
+    };
+    let mut replay: Option<String> = None;
+    let mut i = 2;
+    while i < args.len() {
+        match args[i].as_str() {
+            "--tier" => {
+                tier = match args.get(i + 1).map(|s| s.as_str()) {
+                    Some("quick") => Tier::Quick,
+                    Some("thorough") => Tier::Thorough,
+                    _ => usage(),
+                };
+                i += 2;
+            }
+            "--replay" => {
+                replay = args.get(i + 1).cloned();
+                i += 2;
+            }
+            _ => usage(),
+        }
     }
-    // timing
-    let t = std::time::Instant::now();
-    let n = 20000;
-    for i in 0..n {
-        let mut s2 = s.clone();
-        let _ = apply(&w, &mut s2, &Action::Deposit { u: 0, b: 0, amt: 1000 + i, up_to_limit: None });
-    }
-    println!("{} clone+deposit in {:?}", n, t.elapsed());
+    vh::evidence::capture_stdout();
+    let seed: i64 = std::env::var("VERIF_SEED").ok().and_then(|s| s.parse().ok()).unwrap_or(0);
+    // all work happens on a big-stack thread (the program's zero-copy structs are large)
+    let h = std::thread::Builder::new()
+        .stack_size(256 << 20)
+        .spawn(move || {
+            vh::svm::init();
+            if let Some(path) = replay {
+                let txt = std::fs::read_to_string(&path).expect("replay file");
+                let v: serde_json::Value = serde_json::from_str(&txt).expect("replay json");
+                let r1 = checks::replay(&id, &v["replay"]).expect("no replay support for this property");
+                let r2 = checks::replay(&id, &v["replay"]).expect("no replay support for this property");
+                let f = |r: &Vec<vh::mc::Violation>| r.iter().map(|x| format!("{}|{}", x.clause, x.detail)).collect::<Vec<_>>();
+                if f(&r1) != f(&r2) {
+                    vh::evidence::outln(&format!("MACHINERY-FAILURE property={} replay is not deterministic", id));
+                    return 2;
+                }
+                let want = v["clause"].as_str().unwrap_or("");
+                let hit: Vec<_> = r1.iter().filter(|x| x.clause == want || want.is_empty()).collect();
+                if hit.is_empty() {
+                    vh::evidence::outln(&format!("replay of {} did not reproduce clause {} (observed {:?})", path, want, f(&r1)));
+                    0
+                } else {
+                    vh::evidence::outln(&format!("VIOLATION property={} replay={}", id, path));
+                    for x in hit {
+                        vh::evidence::outln(&format!("  clause={} :: {}", x.clause, x.detail));
+                    }
+                    1
+                }
+            } else {
+                let t0 = Instant::now();
+                match checks::run(&id, tier) {
+                    None => {
+                        eprintln!("{}", format!("unknown property id {id}"));
+                        2
+                    }
+                    Some(o) => evidence::conclude(&id, if tier == Tier::Quick { "quick" } else { "thorough" }, seed, t0.elapsed().as_secs_f64(), &o),
+                }
+            }
+        })
+        .unwrap();
+    let code = h.join().unwrap_or(2);
+    std::process::exit(code);
 }
